@@ -112,7 +112,19 @@ def sign(kind, keyname, msg, alg):
         sig = priv.sign(msg, ec.ECDSA(hasher(alg)))
     else:
         sig = priv.sign(msg, hasher(alg))
-    if garbage:
+    if garbage and "+" in keyname:
+        # the same numbers in other bytes: an altered signature value although (r, s) of a DSA / ECDSA signature are unchanged
+        how = keyname.split("+")[1]
+        if how == "append":
+            sig = sig + b"\x00"
+        elif kind == "RSA":
+            sig = b"\x00" + sig
+        elif how == "ber":                       # SEQUENCE length in long form: 30 LL ... -> 30 81 LL ...
+            sig = sig[:1] + b"\x81" + sig[1:] if sig[1] < 0x80 else sig[:1] + b"\x82\x00" + sig[2:]
+        else:                                    # "pad": the first INTEGER gets a leading zero byte
+            body = b"\x02" + bytes([sig[3] + 1]) + b"\x00" + sig[4:]
+            sig = b"\x30" + bytes([len(body)]) + body if len(body) < 0x80 else b"\x30\x81" + bytes([len(body)]) + body
+    elif garbage:
         pos = int(keyname.split("@")[1]) % len(sig) if "@" in keyname else len(sig) // 2
         sig = sig[:pos] + bytes([sig[pos] ^ 0x01]) + sig[pos + 1:]
     return sig
@@ -359,9 +371,9 @@ def run(chk):
                     inconsistent += not consistent
                     recs.append(rec)
                     metas.append((rec["b"], kind, raised))
-                for p in sgpos:
+                for p in list(sgpos) + ["+append", "+ber", "+pad"]:
                     b = base_block(alg, wa, minsdk=rnd.choice([21, 24]))
-                    b["sis"][0]["sig"]["key"] = "garbage@%d" % p
+                    b["sis"][0]["sig"]["key"] = ("garbage@%d" % p) if isinstance(p, int) else "garbage" + p
                     rec, consistent, raised = observe(apk, b, kind)
                     inconsistent += not consistent
                     recs.append(rec)
